@@ -51,6 +51,9 @@ func setupCached(mode string, depth, batch uint32) *prover.ProvingSystem {
 
 // randomValidInsertion builds a valid insertion batch on a tree with a random history.
 func randomValidInsertion(rng *rand.Rand, depth, batch int) *prover.InsertionParameters {
+	if batch > 1<<depth {
+		die("randomValidInsertion: batch %d does not fit a tree of depth %d", batch, depth)
+	}
 	tree := poseidon_tree.NewTree(depth)
 	n := 1 << depth
 	maxStart := n - batch
